@@ -46,6 +46,14 @@ func c04Plan(tier string, seed uint64) (jobs []rt.Job) {
 			}
 		}
 	}
+	// self-consistent triples for every height 4..30 and large indices, built by the reference without a tree
+	ns := 3
+	if !q {
+		ns = 24
+	}
+	for b := 0; b < ns; b++ {
+		jobs = append(jobs, rt.Job{ID: fmt.Sprintf("C04/sparse/%d", b), Kind: "sparse", Cost: 4, Args: map[string]interface{}{"batch": b}})
+	}
 	nr := 4
 	if !q {
 		nr = 32
@@ -143,6 +151,10 @@ func c04Run(j *rt.Job, seed uint64, r *rt.Rec) {
 	x := &c04Ctx{r, rng}
 	if j.Kind == "random" {
 		c04Random(j, x)
+		return
+	}
+	if j.Kind == "sparse" {
+		c04Sparse(j, x)
 		return
 	}
 	c := cfgFromJob(j)
@@ -461,4 +473,48 @@ func c04Replay(cs map[string]interface{}) (bool, string) {
 		return !acc, d
 	}
 	return acc != refAcc, d
+}
+
+// c04Sparse: for every supported height (incl. those no key can be generated for) and indices deep in
+// the tree, the reference builds a triple that is valid by construction (real leaf, arbitrary
+// authentication path, root = what they hash up to). The library must accept it and must not accept
+// its neighbours (index +-1, one authentication node changed, message changed).
+func c04Sparse(j *rt.Job, x *c04Ctx) {
+	rng, r := x.rng, x.r
+	for h := 4; h <= 30; h += 2 {
+		hf := (h/2 + j.Int("batch")) % 3
+		sec := xmssref.Expand(rng.Bytes(48))
+		n := uint64(1) << uint(h)
+		idxs := []uint32{uint32(n - 1), uint32(n / 2), uint32(rng.U64() % n)}
+		if h >= 10 {
+			idxs = append(idxs, 255, 256, 65535&uint32(n-1), uint32(n-1)&0xFFFFFF00)
+		}
+		for _, idx := range idxs[:minInt(len(idxs), 2+j.Int("batch")%3)] {
+			msg := rng.Bytes(rng.Intn(80))
+			auth := rng.Bytes(32 * h)
+			sig, pk := sec.SparseTriple(xmssref.Hash(hf), h, idx, msg, auth, [3]byte{byte(hf), byte(h / 2), 0})
+			if !x.judge("sparse-valid", msg, sig, pk, "accept", true) {
+				return
+			}
+			r.Observe("sparse_heights", fmt.Sprintf("h=%02d/%s", h, hashNames[hf]))
+			r.Distinct("sparse", h, hf, idx)
+			s2 := append([]byte(nil), sig...)
+			v := idx ^ 1
+			s2[0], s2[1], s2[2], s2[3] = byte(v>>24), byte(v>>16), byte(v>>8), byte(v)
+			lvl := rng.Intn(h)
+			s3 := flipBit(sig, (2180+32*lvl)*8+rng.Intn(256))
+			s4 := append([]byte(nil), sig...)
+			v4 := idx ^ (1 << uint(h-1))
+			s4[0], s4[1], s4[2], s4[3] = byte(v4>>24), byte(v4>>16), byte(v4>>8), byte(v4)
+			for _, cand := range [][]byte{s2, s3, s4} {
+				if !x.judge("sparse-neighbour", msg, cand, pk, "reject", true) {
+					return
+				}
+			}
+			if !x.judge("sparse-neighbour", append(append([]byte(nil), msg...), 1), sig, pk, "reject", false) {
+				return
+			}
+		}
+	}
+	r.Sample(map[string]interface{}{"sparse_triples": "heights 4..30, indices 2^h-1, 2^(h-1), random, byte-boundary values"})
 }
